@@ -115,4 +115,6 @@ class RBFKernelGrad(RBFKernel):
             return k_diag[..., pi]
 
     def num_outputs_per_input(self, x1, x2):
-        return x1.size(-1) + 1
+        # wrappers (sums, products) ask with inputs this kernel's own active_dims were not applied to
+        d = x1.size(-1) if self.active_dims is None else self.active_dims.numel()
+        return d + 1
